@@ -12,7 +12,9 @@ RULE = ("case = CFG description as in C08 plus explicitly seeded unit production
         "terminals) and its bounded language (length <=5, least fixpoint) compared with the original's (minus the "
         "empty word for remove_epsilon and to_normal_form, as documented); shape: only generating and reachable "
         "symbols / no empty body / no A->B / only A->BC and A->a with is_normal_form() True. Non-trivial: >=2 words "
-        "of length <=5 and at least one transformation changes the production set. Distinct = SHA-1 of canonical JSON.")
+        "of length <=5 and at least one transformation changes the production set. In half of the cases the object is "
+        "first asked 1-3 questions (generate_epsilon, contains, is_empty, nullable/generating/reachable symbols, "
+        "is_finite), whose answers are checked too, before it is transformed. Distinct = SHA-1 of canonical JSON.")
 ASSUMPTIONS = ["reference bounded languages by least fixpoint (vlib/ref_cfg.py), bound 5",
                "the start symbol may stay declared in an empty-language result (it has to exist)"]
 BUDGET = {"quick": 800, "thorough": 6000}
@@ -21,8 +23,16 @@ WATCHDOG = 30
 N = 5
 
 
+PRELUDE = ["generate_epsilon", "contains_empty", "is_empty", "get_nullable_symbols", "get_generating_symbols",
+           "get_reachable_symbols", "is_finite", "contains_word"]
+
+
 def strategy(tier, flags):
-    return st.fixed_dictionaries({"g": gen_cfg.cfg_desc(start_always=False, suffix_bias=True, max_prods=9)})
+    # half of the cases transform a fresh object; the others first ask it 1-3 questions (the cleaning passes share
+    # cached analyses with generate_epsilon / contains / is_empty ...), whose answers are checked as well
+    prelude = st.one_of(st.just([]), st.lists(st.sampled_from(PRELUDE), min_size=1, max_size=3))
+    return st.fixed_dictionaries({"g": gen_cfg.cfg_desc(start_always=False, suffix_bias=True, max_prods=9),
+                                  "prelude": prelude})
 
 
 def shape_useless(G):
@@ -78,6 +88,27 @@ def run_case(case):
                                                     "extra": sorted(got - expected, key=repr)[:3]}))
         return G
 
+    for q in case.get("prelude") or []:
+        with guard(failures, "prelude." + q):
+            if q == "generate_epsilon":
+                got, want = g.generate_epsilon(), () in lang
+            elif q == "contains_empty":
+                got, want = g.contains([]), () in lang
+            elif q == "contains_word":
+                w = min((x for x in lang if x), key=lambda x: (len(x), repr(x)), default=None)
+                if w is None:
+                    continue
+                got, want = g.contains(list(w)), True
+            elif q == "is_empty":
+                got, want = g.is_empty(), R.is_empty()
+            elif q == "is_finite":
+                g.is_finite()
+                continue
+            else:
+                getattr(g, q)()
+                continue
+            if got != want:
+                failures.append(fail("prelude." + q, "wrong:%s" % got))
     with guard(failures, "remove_useless_symbols"):
         G = cmp("remove_useless_symbols", g.remove_useless_symbols(), lang)
         bad = shape_useless(G)
@@ -125,6 +156,8 @@ def run_case(case):
         labels.append("empty_language")
     if changed:
         labels.append("transformation_changes_productions")
+    if case.get("prelude"):
+        labels.append("queried_before_transforming")
     return {"failures": failures, "labels": labels, "nontrivial": len(lang) >= 2 and changed}
 
 
